@@ -51,6 +51,8 @@ class S3Domain(small.SmallDomain):
             self.events.append(dict(node=node, state=state, func=callee.func, read_only=ro, transient=tr, key=key_expr,
                                     frame=node.frame))
             seq = state.extra.get('muts', ())
+            if len(seq) >= 3:
+                return state         # saturate: longer sequences (mutations in a loop) add nothing to the order rule
             return state.with_extra(muts=seq + ((callee.func.name, norm(key_expr) if key_expr is not None else '?'),))
         return state
 
@@ -194,7 +196,7 @@ def run(ctx):
         fr = ev['frame']
         fn = fr.func
         ke = ev['key']
-        tname, okp, idv = resolve_key(fn, ke)
+        tname, okp, idv = resolve_key_frame(fr, ke)
         k = (fn.qualname, ev['func'].name, norm(ke) if ke is not None else '?')
         seen_keys[k] = (tname, okp, idv, ev)
     for k, (tname, okp, idv, ev) in sorted(seen_keys.items()):
@@ -288,6 +290,16 @@ def parse_expr(text):
         return ast.parse(text, mode='eval').body
     except SyntaxError:
         return None
+
+
+def resolve_key_frame(frame, e, depth=0):
+    """like resolve_key, following a key that arrives through a parameter into the (inlined) caller"""
+    t = resolve_key(frame.func, e)
+    if t[0] is None and isinstance(e, ast.Name) and depth < 4 and e.id in frame.func.all_param_names:
+        b = frame.binding.get(e.id)
+        if b is not None and b[0] == 'expr' and b[2] is not None:
+            return resolve_key_frame(b[2], b[1], depth + 1)
+    return t
 
 
 def resolve_key(fn, e, depth=0):
